@@ -314,6 +314,14 @@ pub mod verif {
         fn scope_enter(&self) -> usize;
         fn scope_spawn(&self, token: usize, task: Task);
         fn scope_exit(&self, token: usize);
+        /// Runs the body of a fork-join scope; must not return before the body has finished.
+        ///
+        /// The default runs it on the calling thread. A pool that models rayon hands it to one of
+        /// its workers when the caller is not a worker itself (rayon's `in_worker_cold`), where it
+        /// may be picked up by a worker that is waiting for its own scope to finish.
+        fn run_scope_body(&self, body: Task) {
+            body()
+        }
     }
 
     unsafe fn erase<'a>(task: Box<dyn FnOnce() + Send + 'a>) -> Task {
@@ -334,7 +342,20 @@ pub mod verif {
 
         let token = pool.scope_enter();
         let _guard = ExitGuard(pool, token);
-        op(JxlScope(JxlScopeInner::Verif(pool, token, Default::default())))
+        let mut out: Option<R> = None;
+        {
+            let out = &mut out;
+            let body: Box<dyn FnOnce() + Send + '_> = Box::new(move || {
+                *out = Some(op(JxlScope(JxlScopeInner::Verif(
+                    pool,
+                    token,
+                    Default::default(),
+                ))));
+            });
+            // SAFETY: `run_scope_body` does not return before the body has finished.
+            pool.run_scope_body(unsafe { erase(body) });
+        }
+        out.expect("scope body did not run")
     }
 
     pub(super) fn scope_spawn<'scope>(
